@@ -4,7 +4,7 @@ import vlib, e2e, lit_extract, lit_e2e
 from names_common import Oracle
 
 THEOREMS = ["C05_layer_roundtrip", "C05_atom_roundtrip", "C05_simple_roundtrip", "C05_swap_roundtrip", "C05_seed_roundtrip",
-            "C05_shuffle_roundtrip", "C05_wrap_roundtrip", "C05_array_roundtrip", "C05_consts"]
+            "C05_shuffle_roundtrip", "C05_split_roundtrip", "C05_wrap_roundtrip", "C05_array_roundtrip", "C05_consts"]
 
 
 def grid(r, tier):
@@ -33,7 +33,7 @@ def run(res, tier, seed, replay):
         "injected internal/literals/verif_oracle.go printing the emitted BlockStmt with go/printer; checks/lit_extract.py reading that source back into "
         "the artefact structures of Model/Literals.v",
         "the Go compiler running the same emitted blocks (compiled batch) and a `garble -literals` build of a generated program",
-        "split: decoder modelled and checked per instance, general theorem not proved; proxy.go (value hiding) only exercised by the real build"]
+        "proxy.go (value hiding) is only exercised by the real build"]
     res.assumptions = ["okb: data and key bytes are below 256; positions/indices are below the data length (what rand.Intn(len(data)) guarantees)"]
     try:
         garble, _ = vlib.build_garble()
